@@ -363,6 +363,19 @@ def main():
             violations.append({"kind": "the implementation does not terminate (harness exceeded %d s; the model answers this line)" % RUN_TIMEOUT,
                                "config": cname, "case": lines[k] if 0 <= k < len(lines) else "?", "found_input": 0 <= k < len(lines)})
             break       # (no point in waiting for the other configurations)
+        if len(impl) != len(lines) and len(model) == len(lines):
+            # the harness process died (abort, stack overflow, allocation failure ...) on some case: bisect for the first such line
+            lo, hi = 0, len(lines)      # prefix lo answers every line, prefix hi does not
+            while hi - lo > 1:
+                mid = (lo + hi) // 2
+                rcx, outx, errx = run_prog([hbin], lines[:mid], timeout=RUN_TIMEOUT)
+                if len(outx) == mid:
+                    lo = mid
+                else:
+                    hi = mid
+            violations.append({"kind": "the implementation aborts the process on this case (not a catchable panic): " + err1[-300:],
+                               "config": cname, "case": lines[hi - 1], "model": model[hi - 1][:300], "found_input": True})
+            continue
         if len(impl) != len(lines) or len(model) != len(lines):
             violations.append({"kind": "harness/driver crashed or lost lines", "config": cname, "found_input": False,
                                "impl_lines": len(impl), "model_lines": len(model), "n": len(lines),
